@@ -155,15 +155,40 @@ class Repo:
         files = sorted(glob.glob(pattern, recursive=True))
         if not files:
             raise AnalysisError("no python sources under %s/%s" % (self.root, PKG))
+        sources = {}
         for f in files:
             rel = os.path.relpath(f, self.root)
             if rel.endswith("_pb2.py"):
                 continue
             if rel in self.overrides:
-                src = self.overrides[rel]
+                sources[rel] = self.overrides[rel]
             else:
                 with open(f, encoding="utf-8") as fh:
-                    src = fh.read()
+                    sources[rel] = fh.read()
+        # which class derives from which (by short name, over the whole package): the normal form orders type switches
+        # by it before any module is normalised
+        import re as _re
+
+        from . import unroll as _unroll
+
+        bases = {}
+        for src in sources.values():
+            for m_ in _re.finditer(r"^[ \t]*class[ \t]+(\w+)[ \t]*\(([^)]*)\)[ \t]*:", src, _re.M):
+                bases.setdefault(m_.group(1), set()).update(b.strip().split(".")[-1].split("[")[0] for b in m_.group(2).split(",") if b.strip() and "=" not in b)
+        closure = {}
+
+        def anc(n, seen=()):
+            if n in closure:
+                return closure[n]
+            out = set()
+            for b in bases.get(n, ()):
+                if b not in seen:
+                    out |= {b} | anc(b, seen + (n,))
+            closure[n] = out
+            return out
+
+        _unroll.CLASS_ANCESTORS = {n: anc(n) for n in bases}
+        for rel, src in sources.items():
             self.modules[rel] = ModuleInfo(rel, src)
         self._by_modname = {m.modname: m for m in self.modules.values()}
         self.class_index = {}
